@@ -28,9 +28,21 @@ def _sym_int(rng, n, lo=-3, hi=3):
 
 def gen_problem(rng, flavour=None):
     """structured mostly-valid stream: quadratics with prescribed curvature"""
-    flavours = ["diag-pos", "diag-indef", "dense-sym", "dense-psd", "zero-curv", "neg-def", "complex-herm", "complex-diag"]
+    flavours = ["diag-pos", "diag-indef", "dense-sym", "dense-psd", "zero-curv", "neg-def", "complex-herm", "complex-diag", "complex-rv"]
     fl = flavour or flavours[int(rng.integers(0, len(flavours)))]
     n = int(rng.integers(1, 5))
+    if fl == "complex-rv":
+        # a real-valued quadratic of a complex variable that is NOT of the form x^H Q x: any symmetric matrix in the real view
+        # (e.g. 1/2 x^H Q x + 1/2 Re(x^T S x)).  The gradient difference is then only R-linear in dx, so sum(conj(dx)*dg) has a
+        # non-zero imaginary part: "real part of the inner product" is exercised non-trivially.
+        n = int(rng.integers(1, 4))
+        A = rng.integers(-3, 4, size=(2 * n, 2 * n)).astype(np.float64)
+        Qr = (A + A.T) / 2.0 + (2.0 * np.eye(2 * n) if rng.integers(0, 2) else 0.0)
+        br = common.dyadic(rng, (2 * n,), bits=3, scale=3.0)
+        xr = common.dyadic(rng, (2 * n,), bits=3, scale=2.0)
+        return {"Q": Qr.tolist(), "b": br.tolist(), "c": float(common.dyadic(rng, (), bits=2, scale=2.0)), "complex": True,
+                "g": ["zero", "sql2"][int(rng.integers(0, 2))], "gw": float(rng.integers(1, 9)) / 8.0, "x0": xr.tolist(),
+                "L0": float([0.5, 1.0, 2.0, 4.0, 8.0][int(rng.integers(0, 5))]), "flavour": fl, "realview_loss": True}
     cplx = fl.startswith("complex")
     if fl == "diag-pos":
         Q = np.diag(rng.integers(1, 9, size=n) / 2.0)
@@ -258,7 +270,24 @@ def quad_class():
                 val = val - self.w * snp.sum(snp.log(x))
             return val
 
+    class QuadRV(functional.Functional):
+        """f(x) = 1/2 r'Qr r + br'r + c with r = (Re x, Im x): a general real quadratic of a complex variable"""
+
+        has_eval = True
+        has_prox = False
+
+        def __init__(self, Qr, br, c):
+            self.Qr = snp.array(Qr)
+            self.br = snp.array(br)
+            self.c = c
+            super().__init__()
+
+        def __call__(self, x):
+            r = snp.concatenate([snp.real(x), snp.imag(x)])
+            return 0.5 * snp.sum(r * (self.Qr @ r)) + snp.sum(self.br * r) + self.c
+
     _QUAD["cls"] = Quad
+    _QUAD["rv"] = QuadRV
     return Quad
 
 
@@ -301,6 +330,8 @@ def make_solver(case, pol=None):
 
     Q, b, x0 = unpack(case)
     f = quad_class()(Q, b, case["c"], float(case.get("barrier", 0.0)))
+    if case.get("realview_loss"):
+        f = _QUAD["rv"](np.asarray(case["Q"], dtype=np.float64), np.asarray(case["b"], dtype=np.float64), case["c"])
     cls = AcceleratedPGM if case["accel"] else PGM
     if pol is None:
         pol = make_policy(case["policy"])
